@@ -1,6 +1,7 @@
 import Nv.Proofs.C03ScanTop
 import Nv.Proofs.C03Get
 import Nv.Proofs.C03Cow8
+import Nv.Proofs.C03Ref23
 /-!
 C03 — property theorems for the B-tree (`ds/tree/btree`) and its locked wrapper (`ds/tree`).
 Model: `Nv.Model.C03`; specification: `Nv.Spec.C03` (a strictly sorted item list).
@@ -262,22 +263,9 @@ theorem bt_cow_frame (t : Cow.HTree) (op : Cow.WOp) (H : Cow.Heap) (id : Nat) (h
     (htag : H.tag id ≠ some t.cow) (hfree : id ∉ H.free) :
     ((Cow.applyW t op) H).2.get id = H.get id := Cow.frame_write t op H id hid htag hfree
 
-/-
-Full statement (NOT proved; kept for the record):
-
-  theorem bt_clone_isolated : for every program of `Clone`s and writes over any number of handles, in any
-    interleaving, a write through one handle leaves the in-order list of every other handle unchanged.
-
-What is proved below is the part that does not need the writer's own reachable cells to be tracked:
-after a `Clone` (two fresh tags) every root whose cells are live is separated from both new tags
-(`clone_sep`); and ANY NUMBER of writes by ONE tree leave every reading — at every depth — of a root
-separated from the writer's tag unchanged, and keep it separated (so writes to a clone are never visible in
-the tree it was cloned from, and vice versa). Missing for the full statement: that the writer's own root
-stays separated from the other handles' tags and from the free list after its write (closure of the set of
-cells the writer can reach — needs a no-aliasing invariant for owned cells), which is what lets the two
-sides alternate; and the refinement layer B → layer A for the writer itself (validated on every explored
-script by the T-observables `owned` and `cons`, not proved).
--/
+/-- (historical name; the full theorem is `bt_clone_isolated` below.) ANY NUMBER of writes by ONE tree, in ANY store,
+    leave every reading — at every depth — of a root separated from the writer's tag unchanged: no world invariant
+    is assumed here, only `Sep`. -/
 theorem bt_clone_isolated_partial (ops : List Cow.WOp) (t : Cow.HTree) (H : Cow.Heap) (r : Nat)
     (hsep : Cow.Sep H t.cow r) (fuel : Nat) :
     Cow.absNode (Cow.runW t H ops).2 fuel r = Cow.absNode H fuel r ∧
@@ -296,21 +284,108 @@ theorem bt_clone_separates (H : Cow.Heap) (t : Cow.HTree) (c1 c2 : Nat) (r : Nat
     Cow.Sep H (Cow.cloneB t c1 c2).1.cow r ∧ Cow.Sep H (Cow.cloneB t c1 c2).2.cow r :=
   Cow.clone_sep H t c1 c2 r hfresh hlive
 
-/-
-`bt_clone_isolated` in full strength (free list of capacity 32 as in `btree.New`, any interleaving) is NOT proved.
-What is proved in full generality over interleavings is the same statement for stores whose free list has capacity 0
-(`NewWithFreeList(d, NewFreeList(0))`): `bt_clone_isolated_nofreelist` below. The one lemma missing for free-list
-REUSE: "a cell that `freeNode` parks (the right sibling after a merge, the old root after a collapse, the cells of
-`Clear(true)`) is reachable from no handle's root afterwards". It needs the unique-reference invariant of owned cells
-(a cell tagged with a live handle's tag occurs at most once in the child lists of the cells reachable from that
-handle's root, and in no other reachable cell), which the shape-agnostic frame/closure arguments used here cannot give:
-between the writes of one `growChildAndRemove` a grandchild is referenced twice, so the invariant only holds at
-operation boundaries and has to be proved from the functional behaviour of insert/remove on the store. The same
-invariant (distinct owned siblings) is what the refinement layer B → layer A needs; that refinement is therefore not
-proved either — it is validated on every explored script by the T-observables `cons`, `owned`, `free`.
--/
+/-! ### store → value refinement, and clone isolation with free-list reuse
 
-/-- **Clone isolation for arbitrary interleavings** (free list of capacity 0): in ANY world reached from the empty tree by
+The store operations (layer B: cells with owner tags, `mutableFor` copies, one free list shared by all clones) compute
+exactly what the value-level operations (layer A, the subject of the theorems above) compute on the tree a handle
+denotes. The proof rests on one observation: in a well-formed subtree the in-order list is strictly sorted and every
+non-root node holds an item, so no cell can occur twice in it and no item-less cell can occur inside it — which
+separates the cells an operation rewrites from everything it only reads (`Nv/Proofs/C03Ref1…23.lean`). -/
+
+/-- **Refinement B → A** for one write (`ReplaceOrInsert`, `Delete`/`DeleteMin`/`DeleteMax`, `Clear`) through a handle
+    that denotes a valid tree of height `h` in a store whose parked cells hold nothing (`TreeWF`): afterwards the handle
+    denotes the result of the layer-A operation, the returned item is the same, and the handle is well-formed again
+    (so `bt_insert_refines`, `bt_delete_refines`, `bt_history`, the scan theorems … apply to what the store holds).
+    Root copy, root split, `maybeSplitChild`, the three moves of `growChildAndRemove` (with `freeNode` of the merged
+    sibling), the root collapse (with `freeNode` of the old root), and reuse of parked cells by `newNode` are covered. -/
+theorem bt_store_refines (t : Cow.HTree) (H : Cow.Heap) (h : Nat) (w : Cow.TreeWF t H h) (op : Cow.WOp) :
+    ∃ h', ((Cow.applyW t op) H).1.1.absAt ((Cow.applyW t op) H).2 h' = (Cow.applyA (t.absAt H h) op).1 ∧
+      ((Cow.applyW t op) H).1.2 = (Cow.applyA (t.absAt H h) op).2 ∧
+      Cow.TreeWF ((Cow.applyW t op) H).1.1 ((Cow.applyW t op) H).2 h' :=
+  Cow.write_refines t H h w op
+
+/-- the in-order list a handle reads (`HTree.inorder`, which measures the height itself) is the in-order list of the
+    tree it denotes -/
+theorem bt_store_inorder (t : Cow.HTree) (H : Cow.Heap) (h : Nat) (w : Cow.TreeWF t H h) :
+    t.inorder H = (t.absAt H h).inorder := by
+  unfold Cow.HTree.inorder Cow.HTree.absAt Tree.inorder
+  cases hr : t.root with
+  | none => rfl
+  | some r =>
+    have rw0 := w.rootWF hr
+    have : 1 ≤ t.degree - 1 := by have := w.degree; omega
+    simp only [Option.map]
+    rw [Cow.heightB_eq (t.degree - 1) _ this H h r rw0.kids rw0.sorted rw0.ne rw0.lt]
+
+/-- **The world invariant, free list of ANY capacity**: in every world reached from `New(degree)` by ANY program of
+    `Clone`s and writes through ANY handles, every handle denotes a valid tree; every cell it reaches exists, is not
+    parked, and carries no other handle's tag; parked cells hold nothing and are pairwise different. (This discharges
+    `hlive` of `bt_clone_separates` for histories.) -/
+theorem bt_clone_world_invariant (degree cap : Nat) (hd : 2 ≤ degree) (ops : List Cow.POp) :
+    (ops.foldl Cow.World.step (Cow.World.init degree cap)).WR := Cow.World.WR.run degree cap hd ops
+
+/-- **Clone isolation, in full** (free list of any capacity — 32 in `btree.New` — shared by all clones; cells freed by
+    one handle are reused by others): in ANY world reached by ANY program of clones and writes, a further write through
+    handle `i` (1) makes handle `i` denote the layer-A result, and (2) leaves every handle `j ≠ i` itself, and every
+    reading of its tree at every depth (hence its in-order list and every scan computed from it), unchanged. -/
+theorem bt_clone_isolated (degree cap : Nat) (hd : 2 ≤ degree) (pre : List Cow.POp) (i : Nat) (op : Cow.WOp)
+    (t : Cow.HTree) (hi : (pre.foldl Cow.World.step (Cow.World.init degree cap)).hs[i]? = some t) :
+    let w := pre.foldl Cow.World.step (Cow.World.init degree cap)
+    (∃ hh h', Cow.TreeWF t w.H hh ∧
+      (w.step (.write i op)).hs[i]? = some ((Cow.applyW t op) w.H).1.1 ∧
+      ((Cow.applyW t op) w.H).1.1.absAt (w.step (.write i op)).H h' = (Cow.applyA (t.absAt w.H hh) op).1 ∧
+      ((Cow.applyW t op) w.H).1.2 = (Cow.applyA (t.absAt w.H hh) op).2) ∧
+    ∀ (j : Nat) (u : Cow.HTree), j ≠ i → w.hs[j]? = some u →
+      (w.step (.write i op)).hs[j]? = some u ∧
+      ∀ r, u.root = some r → ∀ fuel,
+        Cow.absNode (w.step (.write i op)).H fuel r = Cow.absNode w.H fuel r ∧
+        Cow.heightB (w.step (.write i op)).H fuel r = Cow.heightB w.H fuel r :=
+  (Cow.World.WR.run degree cap hd pre).write_full i op t hi
+
+/-- … so the in-order list every OTHER handle reads is the same before and after -/
+theorem bt_clone_isolated_inorder (degree cap : Nat) (hd : 2 ≤ degree) (pre : List Cow.POp) (i : Nat) (op : Cow.WOp)
+    (t : Cow.HTree) (hi : (pre.foldl Cow.World.step (Cow.World.init degree cap)).hs[i]? = some t)
+    (j : Nat) (u : Cow.HTree) (hji : j ≠ i) (hj : (pre.foldl Cow.World.step (Cow.World.init degree cap)).hs[j]? = some u) :
+    u.inorder ((pre.foldl Cow.World.step (Cow.World.init degree cap)).step (.write i op)).H =
+      u.inorder (pre.foldl Cow.World.step (Cow.World.init degree cap)).H := by
+  have hw := Cow.World.WR.run degree cap hd pre
+  obtain ⟨_, h2⟩ := hw.write_full i op t hi
+  obtain ⟨_, h3⟩ := h2 j u hji hj
+  generalize pre.foldl Cow.World.step (Cow.World.init degree cap) = w at hw h3 hj hi
+  unfold Cow.HTree.inorder
+  cases hr : u.root with
+  | none => rfl
+  | some r =>
+    simp only
+    obtain ⟨hu, wu⟩ := hw.trees j u hj
+    have rw0 := wu.rootWF hr
+    have hmn : 1 ≤ u.degree - 1 := by have := wu.degree; omega
+    have hsz : w.H.size ≤ (w.step (.write i op)).H.size := by
+      simp only [Cow.World.step, hi]
+      exact (Cow.Pres.applyW (H0 := w.H) t op rfl w.H (Cow.Inv.init w.H t.cow)).1.size
+    rw [(h3 r hr _).2, (h3 r hr _).1,
+      Cow.heightB_ge (u.degree - 1) _ hmn w.H hu r rw0.kids rw0.sorted rw0.ne rw0.lt _ hsz,
+      Cow.heightB_eq (u.degree - 1) _ hmn w.H hu r rw0.kids rw0.sorted rw0.ne rw0.lt]
+
+/-- a program in which parked cells ARE reused across handles (free list of capacity 4): fill handle 0, clone it,
+    write to the clone, clear the clone into the free list (three cells get parked) … -/
+def reusePre : List Cow.POp :=
+  [1, 2, 3, 4, 5, 6, 7].map (fun k : Int => Cow.POp.write 0 (.insert ⟨k, k.toNat⟩)) ++
+    [.clone 0, .write 1 (.insert ⟨8, 8⟩), .write 1 (.clear true)]
+
+/-- … then insert and delete through the original (its path copies come out of the free list), clone again, delete
+    through both, insert into the cleared handle -/
+def reuseDemo : Cow.World :=
+  (reusePre ++ ([.write 0 (.insert ⟨9, 9⟩), .write 0 (.remove (.item 4)), .clone 0, .write 2 (.remove .min),
+      .write 0 (.remove .max), .write 1 (.insert ⟨5, 50⟩)] : List Cow.POp)).foldl Cow.World.step (Cow.World.init 2 4)
+
+example : (reusePre.foldl Cow.World.step (Cow.World.init 2 4)).H.free = [4, 6, 5] := by decide +kernel
+example : reuseDemo.H.free = [] ∧ reuseDemo.H.nodes.length = 13 := by decide +kernel
+example : reuseDemo.hs.map (fun t => (t.inorder reuseDemo.H).map (·.val)) =
+    [[1, 2, 3, 5, 6, 7], [50], [2, 3, 5, 6, 7, 9]] := by decide +kernel
+
+/-- (the earlier special case, kept: degree unrestricted, free list of capacity 0, no refinement needed) **Clone isolation
+    for arbitrary interleavings**: in ANY world reached from the empty tree by
     ANY program of `Clone`s and writes (insert, delete, delete-min/max, clear) through ANY of the handles — alternating
     writers included — a further write through handle `i` leaves handle `j ≠ i` itself, and every reading of its tree
     (the layer-A node at every depth, hence the in-order list and every scan result computed from it) unchanged. -/
@@ -353,8 +428,7 @@ theorem bt_clone_world_invariant_nofreelist (degree : Nat) (ops : List Cow.POp) 
 /-- in every store reached by ANY program of clones and writes (insert, delete, delete-min/max, clear) from the
     empty tree, the two tags the next `Clone` takes are carried by no cell — the `hfresh` hypothesis of
     `bt_clone_separates`. (Its other hypothesis, `hlive` — every cell reachable from a root exists and is not parked in
-    the free list — is NOT proved for histories: it needs that a cell freed by a merge/collapse/clear is referenced
-    by no other cell, i.e. the no-aliasing invariant named above.) -/
+    the free list — is the `own` clause of `bt_clone_world_invariant`.) -/
 theorem bt_clone_tags_fresh (degree cap : Nat) (ops : List Cow.POp) :
     let w := ops.foldl Cow.World.step (Cow.World.init degree cap)
     ∀ id, w.H.tag id ≠ some w.next ∧ w.H.tag id ≠ some (w.next + 1) :=
